@@ -111,6 +111,12 @@ prop("C13", engine="inh", worker="make_inh_trace", prefixes=["C13."], level="mod
      quick=dict(traces=160, nops=25), thorough=dict(traces=4000, nops=40))
 
 
+prop("C07", engine="inh", worker="make_dyn_trace", prefixes=["C07."], level="model_checking",
+     jobs=lambda tier: [("dyn", dict()), ("dyn", dict(gen=dict(p_uncached=0.4)))],
+     quick=dict(traces=192, nops=28), thorough=dict(traces=5000, nops=45),
+     also=["C02.NoStale", "C01.Transparent", "C06.ExactDiscard"])
+
+
 # ---------------------------------------------------------------------------
 def belongs(cfg, label):
     lab = label[3:] if label.startswith("KF:") else label
@@ -126,7 +132,7 @@ def save_replay(pid, tr):
            for e in tr["ev"]]
     with open(path, "w") as f:
         opts = {k: tr["hdr"][k] for k in ("maxdepth", "recalc", "checkdefs") if k in tr["hdr"]}
-        if tr["hdr"].get("world") == "inh":
+        if tr["hdr"].get("world") in ("inh", "dyn"):
             opts["handles"] = True
         json.dump({"property": pid, "world": tr["hdr"].get("world", "eval"),
                    "init": tr["hdr"]["init"], "ops": ops, "opts": opts,
@@ -235,6 +241,11 @@ def corrupt(pid, tr, rng):
                             row[1][rng.choice(list(cs))] = {"v": ["int", 1, [], ""], "mode": "auto",
                                                             "derived": False}
                             return t, "C12.NamesUnique"
+        if pid == "C07" and post.get("handles"):
+            dyn = [h for h in post["handles"] if h[2] == "current" and h[4]]
+            if dyn:
+                rng.choice(dyn)[2] = "orphan"
+                return t, "C07.HandleDeadOrCurrent"
         if pid == "C13" and post.get("handles"):
             dead = [h for h in post["handles"] if h[2] == "dead"]
             if dead:
